@@ -102,33 +102,42 @@ class Ctx:
         out = os.path.join(BUILD, "bin", name + ("_race" if race else ""))
         os.makedirs(os.path.dirname(out), exist_ok=True)
         ov = write_overlay()
-        cmd = ["go", "build", "-tags", tags, "-overlay", ov, "-o", out]
+        # build to a private name and move into place atomically: concurrent checks share the
+        # binaries, and a failed build raises, so a stale binary is never run by this check
+        tmpout = "%s.tmp.%d" % (out, os.getpid())
+        cmd = ["go", "build", "-tags", tags, "-overlay", ov, "-o", tmpout]
         env = dict(GOENV)
         if race:
             cmd.insert(2, "-race")
             env["CGO_ENABLED"] = "1"
         cmd.append("./internal/zz_verif/" + name)
         try:
-            with Lock("go." + name):
-                if os.path.exists(out):
-                    os.remove(out)          # never run a stale binary
-                rc, o = sh(cmd, cwd=REPO, env=env, timeout=1200)
+            rc, o = sh(cmd, cwd=REPO, env=env, timeout=1200)
         finally:
             os.remove(ov)
         if rc != 0:
+            if os.path.exists(tmpout):
+                os.remove(tmpout)
             raise InfraError("go build of harness %s failed:\n%s" % (name, o[-6000:]))
+        if REPO != "/repo":
+            # a check run against another tree (seeded change) keeps its own binary
+            out = "%s.%s" % (out, hashlib.sha1(REPO.encode()).hexdigest()[:8])
+        os.replace(tmpout, out)
         return out
 
     def build_wa(self):
         """the real `wa` binary from /repo's working tree."""
         out = os.path.join(BUILD, "bin", "wa")
         os.makedirs(os.path.dirname(out), exist_ok=True)
-        with Lock("go.wa"):
-            if os.path.exists(out):
-                os.remove(out)
-            rc, o = sh(["go", "build", "-o", out, "."], cwd=REPO, env=GOENV, timeout=1200)
+        tmpout = "%s.tmp.%d" % (out, os.getpid())
+        rc, o = sh(["go", "build", "-o", tmpout, "."], cwd=REPO, env=GOENV, timeout=1200)
         if rc != 0:
+            if os.path.exists(tmpout):
+                os.remove(tmpout)
             raise InfraError("go build of wa failed:\n%s" % o[-6000:])
+        if REPO != "/repo":
+            out = "%s.%s" % (out, hashlib.sha1(REPO.encode()).hexdigest()[:8])
+        os.replace(tmpout, out)
         return out
 
     def run_bin(self, binpath, args=(), input_text=None, timeout=600, env=None):
